@@ -137,3 +137,51 @@ def run(rep: Report, tier: str) -> None:
 			r2.skip(name, f.where, why)
 		else:
 			r2.violate(name, f.where, f'BlockParser.{name} tests {text_p}[i] against the requested brackets / the delimiter, but {why}: a bracket or delimiter inside a string literal is counted (`print("(")`, `f("a,b", c)`), so the fragment is cut inside the string', unparse(tests[0])[:80])
+	rule_angle(rep, bp, pairs)
+
+
+def rule_angle(rep: Report, bp, pairs) -> None:
+	"""`<` and `>` are brackets in `std::vector<int>` and operators in `a < b`, `a << 2`, `p->x`, `a >= b`. A scanner that opens a block at every `<` never
+	finds its end for a comparison: `a < b, c` is not split, and `for i in range(a if a < b else b, n)` cannot be transpiled. Wherever a scanner
+	decides that a character opens or closes a foreign block, the decision for the angle brackets must look at the neighbouring characters (operators
+	are rendered with blanks around them, template brackets are attached)."""
+	from vlib.match import inline_predicates
+	r = rep.rule('C18/angle-brackets-disambiguated', 'every place where a scanner of BlockParser treats a character as a foreign bracket (the stack arm of _skip_other_block, the skip triggers of the scanning loops) is conditioned on the neighbouring characters of that position, so that `<` / `>` used as operators are not brackets', floor=3)
+	if not any(p_ == '<>' for p_ in pairs):
+		r.ok('no-angle-pair', None, message='<> is not a bracket pair of the table: nothing to disambiguate')
+		return
+
+	def looks_at_neighbours(f, known) -> bool:
+		expanded = inline_predicates(f, [(a, p_) for a, p_ in known], depth=2)
+		for a, _ in expanded:
+			for x in ast.walk(a):
+				# a predicate helper of the class that receives the position: judged by what its body reads
+				if isinstance(x, ast.Call) and isinstance(x.func, ast.Attribute) and isinstance(x.func.value, ast.Name) and x.func.value.id in ('cls', 'self') and f.cls is not None:
+					g = f.cls.method(x.func.attr)
+					if g is not None and any(isinstance(y, ast.Subscript) and isinstance(y.slice, ast.BinOp) and isinstance(y.slice.op, (ast.Add, ast.Sub)) and isinstance(y.slice.right, ast.Constant) for y in ast.walk(g.node)):
+						return True
+				if isinstance(x, ast.Subscript) and isinstance(x.slice, ast.BinOp) and isinstance(x.slice.op, (ast.Add, ast.Sub)) and isinstance(x.slice.right, ast.Constant) and x.slice.right.value in (1, 2):
+					return True
+				if isinstance(x, ast.Name):
+					d_ = deref(f.node, x)
+					if d_ is not x and any(isinstance(y, ast.Subscript) and isinstance(y.slice, ast.BinOp) for y in ast.walk(d_)):
+						return True
+		return False
+	sk = bp.method('_skip_other_block')
+	if sk is not None:
+		sx = X(sk)
+		ops = [c_ for c_ in nodes(sx, ast.Call) if isinstance(c_.func, ast.Attribute) and c_.func.attr in ('append', 'pop')]
+		for c_ in ops:
+			r.check(looks_at_neighbours(sk, atoms(sx, c_)), f'_skip_other_block:{c_.func.attr}', (BLOCK, c_.lineno), f'`{unparse(c_)[:50]}` changes the closer stack for every `<` / `>`, whatever stands next to it: a comparison `a < b` opens a block that never closes and the rest of the text is swallowed', unparse(c_)[:80])
+	for name in ('_analyze_entry', 'break_separator'):
+		f = bp.method(name)
+		if f is None:
+			continue
+		fx = X(f)
+		skips = [c_ for c_ in nodes(fx, ast.Call) if unparse(c_.func).endswith('_skip_other_block')]
+		for c_ in skips:
+			toks = [a for a, p_ in atoms(fx, c_) if p_ and isinstance(a, ast.Compare) and isinstance(a.ops[0], ast.In)]
+			angle = any('<' in (_token_set(fx, a.comparators[0], pairs) or set()) for a in toks)
+			if not angle:
+				continue
+			r.check(looks_at_neighbours(f, atoms(fx, c_)), f'{name}:skip-trigger', (BLOCK, c_.lineno), f'{name} starts skipping a foreign block at every `<`, whatever stands next to it: `a < b, c` is never split at the comma and `range(a if a < b else b, n)` is rejected', unparse(c_)[:80])
